@@ -13,7 +13,7 @@ pub fn has_front_matter(input: &str) -> bool {
 pub fn check_invariant(r: &ScalableRecipe, valid: bool) -> Option<(String, String)> {
     let fail = |sig: &str, m: String| Some((format!("c06:{sig}"), m));
     let (ni, nc, nt, nq) = (r.ingredients.len(), r.cookware.len(), r.timers.len(), r.inline_quantities.len());
-    let (mut li, mut lc, mut lt, mut lq) = (0usize, 0usize, 0usize, 0usize); // next expected index per table (document order)
+    let (mut li, mut lc, mut lt, mut lq) = (0usize, 0usize, 0usize, 0usize); // lower bound for the next index per table: document order = strictly increasing (a components-mode block adds components without items, so indices may be skipped)
     for (si, sec) in r.sections.iter().enumerate() {
         if sec.name.is_none() && sec.content.is_empty() { return fail("empty-section", format!("section {si} is empty")); }
         let mut number = 1u32;
@@ -27,10 +27,10 @@ pub fn check_invariant(r: &ScalableRecipe, valid: bool) -> Option<(String, Strin
                     for it in &st.items {
                         match it {
                             Item::Text { value } => { if value.is_empty() { return fail("empty-text-item", format!("empty text item in section {si} step {}", st.number)); } }
-                            Item::Ingredient { index } => { if *index >= ni { return fail("index", format!("ingredient index {index} out of range {ni}")); } if *index != li { return fail("order", format!("ingredient index {index} referenced out of document order (expected {li})")); } li += 1; }
-                            Item::Cookware { index } => { if *index >= nc { return fail("index", format!("cookware index {index} out of range {nc}")); } if *index != lc { return fail("order", format!("cookware index {index} out of document order (expected {lc})")); } lc += 1; }
-                            Item::Timer { index } => { if *index >= nt { return fail("index", format!("timer index {index} out of range {nt}")); } if *index != lt { return fail("order", format!("timer index {index} out of document order (expected {lt})")); } lt += 1; }
-                            Item::InlineQuantity { index } => { if *index >= nq { return fail("index", format!("inline quantity index {index} out of range {nq}")); } if *index != lq { return fail("order", format!("inline quantity index {index} out of document order (expected {lq})")); } lq += 1; }
+                            Item::Ingredient { index } => { if *index >= ni { return fail("index", format!("ingredient index {index} out of range {ni}")); } if *index < li { return fail("order", format!("ingredient index {index} referenced out of document order (an item before it has index >= it; next free {li})")); } li = *index + 1; }
+                            Item::Cookware { index } => { if *index >= nc { return fail("index", format!("cookware index {index} out of range {nc}")); } if *index < lc { return fail("order", format!("cookware index {index} out of document order (expected {lc})")); } lc = *index + 1; }
+                            Item::Timer { index } => { if *index >= nt { return fail("index", format!("timer index {index} out of range {nt}")); } if *index < lt { return fail("order", format!("timer index {index} out of document order (expected {lt})")); } lt = *index + 1; }
+                            Item::InlineQuantity { index } => { if *index >= nq { return fail("index", format!("inline quantity index {index} out of range {nq}")); } if *index < lq { return fail("order", format!("inline quantity index {index} out of document order (expected {lq})")); } lq = *index + 1; }
                         }
                     }
                 }
